@@ -33,6 +33,8 @@ def GoodP (P : EP) : View → RState → Prop
   | .either c a b, .either e c' a' b' left inner =>
     c = c' ∧ a = a' ∧ b = b' ∧ P e c (fun v => left = (v != 0)) ∧
       (left = true → GoodP P a inner) ∧ (left = false → GoodP P b inner)
+  | .forKeyed sel lists, .forK e sel' lists' ks _ =>
+    sel = sel' ∧ lists = lists' ∧ P e sel (fun v => ks.hashed = listAt lists v) ∧ KOK ks
   | _, _ => False
 
 theorem GoodAttrP.map {P Q : EP} : ∀ {a : Attr} {s : AState}, GoodAttrP P a s →
@@ -94,7 +96,10 @@ theorem GoodP.map {P Q : EP} : ∀ (v : View) (t : RState), GoodP P v t →
       · intro hl; exact iha inner (h.2.2.2.2.1 hl) (fun e x cur he => hm e x cur (by simp [effsOf, he]))
       · intro hl; exact ihb inner (h.2.2.2.2.2 hl) (fun e x cur he => hm e x cur (by simp [effsOf, he]))
   | «show» c a b _ _ => intro t h _; cases t <;> simp only [GoodP] at h
-  | forKeyed sel lists => intro t h _; cases t <;> simp only [GoodP] at h
+  | forKeyed sel lists =>
+    intro t h hm
+    cases t <;> simp only [GoodP] at h ⊢
+    next e sel' lists' ks texts => exact ⟨h.1, h.2.1, hm e _ _ (by simp [effsOf]) h.2.2.1, h.2.2.2⟩
 
 /-- `Good` is `GoodP` for the predicate `EffOK` -/
 theorem goodAttr_iff {K : Nat} {st : St} : ∀ (a : Attr) (s : AState),
@@ -344,7 +349,7 @@ theorem GoodP.viewOf {P : EP} : ∀ (v : View) (t : RState), GoodP P v t → RVi
     intro t h; cases t <;> simp only [GoodP] at h
     simp [RView.viewOf, h.1, h.2.1, h.2.2.1]
   | «show» c a b _ _ => intro t h; cases t <;> simp only [GoodP] at h
-  | forKeyed sel lists => intro t h; cases t <;> simp only [GoodP] at h
+  | forKeyed sel lists => intro t h; cases t <;> simp only [GoodP] at h; simp [RView.viewOf, h.1, h.2.1]
 
 /-- a tree held by the task of a dropped effect: a state of a well-formed core view whose effects exist -/
 structure ZTree (K : Nat) (st : St) (h : RState) : Prop where
@@ -418,7 +423,11 @@ theorem GoodP.bound {K : Nat} {st : St} : ∀ (v : View) (t : RState), GoodP (Ef
         | true => exact iha inner (h.2.2.2.2.1 hl) e he
         | false => exact ihb inner (h.2.2.2.2.2 hl) e he
   | «show» c a b _ _ => intro t h _ _; cases t <;> simp only [GoodP] at h
-  | forKeyed sel lists => intro t h _ _; cases t <;> simp only [GoodP] at h
+  | forKeyed sel lists =>
+    intro t h e he
+    cases t <;> simp only [GoodP] at h
+    next e' sel' lists' ks texts =>
+      simp only [effsOf, List.mem_singleton] at he; subst he; exact ⟨h.2.2.1.1, h.2.2.1.2.1⟩
 
 
 theorem attr_held_ok : ∀ (s : AState), ∀ z ∈ s.held, z.1 ∈ s.effs ∧ z.2 = none := by
@@ -495,6 +504,12 @@ theorem held_ok {K : Nat} {st : St} : ∀ (v : View) (t : RState), GoodP (EffWf 
         have hv := GoodP.viewOf b inner hg
         exact ⟨by rw [hv]; exact hg, by rw [hv]; exact hw.2, by rw [hv]; exact hc.2⟩
   | «show» c a b _ _ => intro t h _ _ _ _; cases t <;> simp only [GoodP] at h
-  | forKeyed sel lists => intro t h _ _ _ _; cases t <;> simp only [GoodP] at h
+  | forKeyed sel lists =>
+    intro t h _ _ z hz
+    cases t <;> simp only [GoodP] at h
+    next e' sel' lists' ks texts =>
+      simp only [RState.held, List.mem_singleton] at hz
+      subst hz
+      exact ⟨by simp [effsOf], fun h' hh => by cases hh⟩
 
 end Leptos.RView
